@@ -37,7 +37,7 @@ def has_coord(k) -> bool:
     if k in COORD:
         return True
     if isinstance(k, tuple):
-        if k[0] == "TUPLE":
+        if k[0] in ("TUPLE", "ZIP"):
             return any(has_coord(x) for x in k[1])
         return any(has_coord(x) for x in k[1:])
     return False
@@ -154,6 +154,8 @@ class _Typer:
                 self.stmt(b)
 
     def elem(self, k: Any) -> Any:
+        if isinstance(k, tuple) and k[0] == "ZIP":
+            return ("TUPLE", [self.elem(x) for x in k[1]])  # components of the same axis, side by side
         if isinstance(k, tuple) and k[0] == "LIST":
             return k[1]
         if isinstance(k, tuple) and k[0] == "DICT":
@@ -177,6 +179,8 @@ class _Typer:
                     self.bind(e, PC)
                 elif v == VEC:
                     self.bind(e, VC)
+                elif isinstance(v, tuple) and v[0] == "LIST":
+                    self.bind(e, v[1])  # a, b, c = [f(x) for x in ...]: every name gets the element kind
                 else:
                     self.bind(e, ID if v == ID else UNK)
         elif isinstance(t, ast.Subscript):
@@ -248,6 +252,8 @@ class _Typer:
         for g in e.generators:
             it = self.ev(g.iter)
             sub.bind(g.target, sub.elem(it))
+            if len(e.generators) == 1 and not g.ifs and (it in (PT, VEC) or (isinstance(it, tuple) and it[0] == "ZIP" and it[1] and all(x in (PT, VEC) for x in it[1]))):
+                axis_var = "<all axes>"  # one round per axis, in axis order: the components of a point / vector, or of several zipped together
             if isinstance(g.iter, (ast.Tuple, ast.List)) and [getattr(x, "value", None) for x in g.iter.elts] == [0, 1, 2] and isinstance(g.target, ast.Name):
                 sub.env[g.target.id] = "AXIS"
                 axis_var = g.target.id
@@ -521,6 +527,10 @@ class _Typer:
                     self.err(e, f"{f}(...) receives a coordinate-dependent value of kind {a}")
             return {"Residue3D": RES, "Structure3D": STRUCT}.get(f, ID)
         if f in ("range", "enumerate", "zip", "list", "set", "dict", "tuple", "defaultdict", "OrderedSet", "str", "int", "bool", "isinstance", "filter", "next", "all", "any", "map", "reversed", "iter", "frozenset", "print", "hash"):
+            if f == "zip" and args and not kws:
+                return ("ZIP", list(args))
+            if f in ("reversed", "set", "frozenset", "filter") and args and args[-1] in (PT, VEC):
+                return UNK  # permutes or drops axes: no longer the components of a point in axis order
             if f in ("list", "tuple", "filter", "reversed", "set", "frozenset", "OrderedSet") and args:
                 return args[-1]
             if f == "next" and args:
